@@ -2,7 +2,7 @@
 import ast
 
 from ..srcmodel import AnalysisError, site
-from ..astutil import dotted, calls_named, is_self_attr
+from ..astutil import dotted, calls_named, is_self_attr, params
 from ..cfg import build
 from .. import a3common
 from ..selftest import Mutant, Rewrite
@@ -179,6 +179,32 @@ def r6(tree, rep):
     rep.check("C14.R6", "Deferreds created by the client (%d sites) were examined for cancellers" % n, n > 0)
 
 
+def r8(tree, rep):
+    """an echo can arrive for a phase that is no longer (or was never) pending - the server replays the whole mailbox after every
+    re-open, and an echo is retired on its first arrival: Mailbox.dequeue must tolerate the absent key (pop with a default, or a
+    membership test), a bare `del d[phase]` / `d.pop(phase)` is a KeyError inside the handler of `message`"""
+    MB = "src/wormhole/_mailbox.py"
+    fn = tree.func(MB, "Mailbox", "dequeue")
+    g = build(fn, split=True)
+    from ..cfg import in_atom
+    ph = params(fn)[0] if params(fn) else None
+    guarded = in_atom(lambda e: isinstance(e, ast.Name) and e.id == ph, lambda e: is_self_attr(e, "_pending_outbound"))
+    risky = []
+    for n in g.stmt:
+        for e in g.head_expr(n):
+            for x in ast.walk(e):
+                if isinstance(x, ast.Call) and isinstance(x.func, ast.Attribute) and x.func.attr == "pop" and is_self_attr(x.func.value, "_pending_outbound") \
+                        and len(x.args) < 2 and not x.keywords:
+                    risky.append(n)
+                if isinstance(x, ast.Subscript) and is_self_attr(x.value, "_pending_outbound") and isinstance(x.ctx, (ast.Del, ast.Load)):
+                    risky.append(n)
+    bad = g.only_when(risky, guarded, True) if risky else []
+    rep.check("C14.R8", "Mailbox.dequeue tolerates an echo for a phase that is not pending (pop with a default, or under `phase in _pending_outbound`)",
+              not bad, site(fn, MB), key="C14.R8:Mailbox.dequeue:absent-key",
+              what="Mailbox.dequeue removes the echoed phase without allowing for its absence: the replay after a re-open echoes phases that "
+                   "were already retired - KeyError inside the handler of `message`, reported by close() as an internal error")
+
+
 def r7(tree, rep):
     """an `assert` about a value another machine built is an agreement between the two: Code.do_finish_allocate asserts
     code.startswith(nameplate + "-") for what Allocator.build_and_notify hands it - discharged by the shape of that builder
@@ -220,6 +246,7 @@ def run(tree, rep, tier):
     r4(tree, rep, tier)
     r5(tree, rep)
     r7(tree, rep)
+    r8(tree, rep)
     r1(tree, rep, tier)
 
 
@@ -261,3 +288,4 @@ MUTANTS.append(Mutant("nameplates-list-or-set", RDV, "        self._L.rx_namepla
                              "        # we get a set of nameplate id strings\n        if self._all_nameplates:\n            all_nameplates = all_nameplates | self._all_nameplates\n"),)))
 MUTANTS.append(Mutant("del-M-S4-got_mailbox", _M, "    S4.upon(got_mailbox, enter=S4, outputs=[])\n", "", "C14.R1",
                       "finding F21 put back: close() from the wordlist callback, then got_mailbox"))
+MUTANTS.append(Mutant("dequeue-del-absent-key", _M, "        self._pending_outbound.pop(phase, None)", "        del self._pending_outbound[phase]", "C14.R8", "seed C14-17"))
